@@ -443,12 +443,12 @@ def main():
         vec = [(2, 1), (2, 3), (3, 2), (3, 4), (4, 5)]
     ck.bound(capacity=Cs, envs=[1, 2], sample_configs_scalar=[list(x) for x in scal], sample_configs_E2=[list(x) for x in vec],
              note="capacity C, number of environments E and batch size B are static (enumerated); the position(s), every buffer cell, the new row, the key and the draw are symbolic; "
-                  "position p >= 0 is an unbounded mathematical integer")
+                  "the number of insertions n >= 0 is an unbounded mathematical integer; the buffer's counter is linked to it only by what the code reads off it, and its int32 arithmetic is modelled with wrapping in the `machine` obligations")
     ck.stub(*[s for s in stubs.STUB_NOTES if "choice" in s or "same key" in s])
     ck.assume_note("replay of the sample obligations runs the real ReplayBuffer.sample with jax.random.choice replaced by the contract stub bound to the model's draw (ModelWorld): "
                    "a draw the real sampler could return for the probabilities the real code passed",
                    "ghost tags: the integer observation leaf `tag` identifies the insertion / the slot; all other leaves are arbitrary (uninterpreted history functions, free cells)")
-    ck.out("int32 wrap-around of `position` after 2^31 insertions per environment (positions are mathematical integers)",
+    ck.out("capacities of 2^30 slots and more per environment (2 * size must fit int32; the counter obligation is discharged for the enumerated capacities)",
            "uniformity / independence of the sampled indices (only the documented support and distinctness contract of jax.random.choice is used)",
            "batch sizes larger than the number of stored transitions (precondition of the statement)",
            "float32 rounding (no arithmetic on stored values occurs; probabilities are reals)")
